@@ -10,6 +10,7 @@ replace github.com/tendermint/tm-db => github.com/pokt-network/tm-db v0.5.2-0.20
 
 require (
 	github.com/pokt-network/pocket-core v0.0.0
+	github.com/tendermint/tendermint v0.33.7
 	github.com/tendermint/tm-db v0.5.1
 )
 
@@ -41,7 +42,6 @@ require (
 	github.com/prometheus/procfs v0.7.3 // indirect
 	github.com/syndtr/goleveldb v1.0.1-0.20210819022825-2ae1ddf74ef7 // indirect
 	github.com/tendermint/go-amino v0.15.1 // indirect
-	github.com/tendermint/tendermint v0.33.7 // indirect
 	golang.org/x/crypto v0.0.0-20210921155107-089bfa567519 // indirect
 	golang.org/x/net v0.9.0 // indirect
 	golang.org/x/sys v0.14.0 // indirect
